@@ -647,7 +647,21 @@ fn case_json(func: Func, isa: &str, bits: u32) -> Json {
     json!({"function": func.name(), "isa": isa, "input_bits": format!("0x{bits:08x}"), "input": format!("{:e}", f32::from_bits(bits))})
 }
 
-fn signature(func: Func, kind: Kind, isa: &str) -> String {
+fn signature(func: Func, kind: Kind, isa: &str, worst: f32) -> String {
+    // how far beyond the bound the worst input of this function on this ISA lies: part of
+    // the signature, so that a known finding covers its own magnitude class only
+    let bound = match func.contract() {
+        Contract::Ulp(b) | Contract::Abs(b) | Contract::AbsThenExact(b) | Contract::Observe(_, b) => b,
+    };
+    let excess = if !(worst / bound).is_finite() || worst / bound > 4.0 {
+        "worst error more than 4x the bound"
+    } else if worst / bound > 2.0 {
+        "worst error within 4x of the bound"
+    } else if worst / bound > 1.25 {
+        "worst error within 2x of the bound"
+    } else {
+        "worst error within 1.25x of the bound"
+    };
     let contract = match func.contract() {
         Contract::Ulp(b) => format!("<= {b} ULP"),
         Contract::Abs(b) => format!("abs <= {b:e}"),
@@ -659,6 +673,15 @@ fn signature(func: Func, kind: Kind, isa: &str) -> String {
         Kind::ZeroSign | Kind::NanMismatch | Kind::NotExactFallback => {
             format!("vecmath {}: {} (reference {})", func.name(), kind.text(), func.reference_name())
         }
+        Kind::Bound => format!(
+            "vecmath {}: {} ({} vs {}) on {} [{}]",
+            func.name(),
+            kind.text(),
+            contract,
+            func.reference_name(),
+            util::isa_class(isa),
+            excess
+        ),
         _ => format!(
             "vecmath {}: {} ({} vs {}) on {}",
             func.name(),
@@ -673,7 +696,7 @@ fn signature(func: Func, kind: Kind, isa: &str) -> String {
 fn report(ctx: &Ctx, func: Func, isa: &IsaSel, st: &Stats) {
     for (kind, (bits, a, e, err)) in &st.first {
         let n = st.viol_by_kind.get(kind).copied().unwrap_or(1);
-        let sig = signature(func, *kind, isa.name);
+        let sig = signature(func, *kind, isa.name, st.max_err);
         let detail = format!(
             "{}({:e} = 0x{:08x}) on isa {}: rten = {:e} (0x{:08x}), reference {} = {:e} (0x{:08x}), error = {} ({}); {} input(s) of this kind on this isa",
             func.name(),
@@ -930,7 +953,7 @@ fn replay(ctx: Ctx, path: &std::path::Path) -> ! {
         samples.push(json!({"isa": isa.name, "rten": f32_json(one[0]), "reference": f32_json(e), "error": err as f64}));
         if let Some(k) = kind {
             if isa.name == want_isa || want_isa.is_empty() {
-                ctx.violation(signature(func, k, isa.name), case_json(func, isa.name, bits), format!("replayed: rten {:e}, reference {:e}, error {}", one[0], e, err));
+                ctx.violation(signature(func, k, isa.name, err), case_json(func, isa.name, bits), format!("replayed: rten {:e}, reference {:e}, error {}", one[0], e, err));
             }
         }
     }
